@@ -256,7 +256,7 @@ def count_obligations(cfg):
         src_nc = re.sub(r"\(\*.*?\*\)", "", src, flags=re.S)
         s = len(re.findall(r"^\s*(?:Local\s+|Global\s+)?(Theorem|Lemma|Corollary|Example|Fact|Proposition|Remark|Property)\b", src_nc, re.M))
         # section-local statements proved interactively: `Let H : T.` followed by a proof script
-        s += len([m for m in re.finditer(r"^\s*Let\s+[^.]*?\.\s*$", src_nc, re.M) if ":=" not in m.group(0)])
+        s += len([m for m in re.finditer(r"^\s*Let\s+\w+\b.*?\.(?=\s)", src_nc, re.M | re.S) if ":=" not in m.group(0)])
         q = len(re.findall(r"\b(Qed|Defined)\.", src_nc))
         if re.search(r"\b(Admitted|admit|Axiom|Parameter|Conjecture)\b|Unset Guard|bypass_check|type-in-type", src_nc):
             bad.append(rel + " (forbidden keyword)")
